@@ -152,6 +152,13 @@ def received_equal(got, want):
         return type(got) is list and len(got) == len(want) and all(received_equal(g, w) for g, w in zip(got, want))
     if isinstance(want, dict):
         return type(got) is dict and set(got) == set(want) and all(received_equal(got[k], want[k]) for k in want)
+    import datetime as _dt
+
+    if isinstance(want, _dt.datetime) and want.tzinfo is not None:
+        # the normalised value of an aware datetime is that instant's wall time with its FIXED offset (what the key's
+        # ISO text says): a zone object whose offset depends on the date is not what the key was computed from
+        if not isinstance(got, _dt.datetime) or got.tzinfo is None or got.tzinfo.utcoffset(None) != want.utcoffset():
+            return False
     return domain.eq(got, want)
 
 
